@@ -51,6 +51,35 @@ func (p *Prog) guardedBy(info *types.Info, n ast.Node, root ast.Node, obj types.
 			return true
 		}
 	}
+	// early-exit form of the same guard: `if <cond on obj> { …; return }` earlier in a block that encloses n
+	for cur := p.Parent(n); cur != nil; cur = p.Parent(cur) {
+		var list []ast.Stmt
+		switch b := cur.(type) {
+		case *ast.BlockStmt:
+			list = b.List
+		case *ast.CaseClause:
+			list = b.Body
+		}
+		for _, st := range list {
+			if st.End() > n.Pos() {
+				break
+			}
+			ifs, ok := st.(*ast.IfStmt)
+			if !ok || ifs.Else != nil || len(ifs.Body.List) == 0 {
+				continue
+			}
+			if !usesObj(info, ifs.Cond, obj) && !(ifs.Init != nil && usesObj(info, ifs.Init, obj)) {
+				continue
+			}
+			switch ifs.Body.List[len(ifs.Body.List)-1].(type) {
+			case *ast.ReturnStmt, *ast.BranchStmt:
+				return true
+			}
+		}
+		if cur == root {
+			break
+		}
+	}
 	return false
 }
 
